@@ -20,6 +20,9 @@ func (fx *FnExec) SymValue(st *State, t types.Type, name string, depth int) Valu
 		}
 		if u.Info()&types.IsString != 0 {
 			l := cx.Fresh(name+".len", BV(64))
+			if n, ok := fx.PinLen[name]; ok {
+				l = BV64(n)
+			}
 			st.Assume(ULt(l, BV64(1<<40)))
 			return StrV{C: CSym{cx.Fresh(name, Arr(64, 8))}, Off: BV64(0), Len: l}
 		}
@@ -62,6 +65,12 @@ func (fx *FnExec) SymValue(st *State, t types.Type, name string, depth int) Valu
 			nl := cx.Fresh(name+".nil", Bool)
 			ln := cx.Fresh(name+".len", BV(64))
 			cp := cx.Fresh(name+".cap", BV(64))
+			if n, ok := fx.PinLen[name]; ok {
+				ln = BV64(n)
+				if n > 0 {
+					nl = False
+				}
+			}
 			st.Assume(ULe(ln, cp))
 			st.Assume(ULt(cp, BV64(1<<40)))
 			st.Assume(Implies(nl, Eq(cp, BV64(0))))
@@ -108,6 +117,10 @@ type FnSpec struct {
 	Args func(fx *FnExec, st *State) []Value
 	// OnJoin: see FnExec.OnJoin.
 	OnJoin func(fx *FnExec, fr *Frame, st *State, ifBlock *ssa.BasicBlock)
+	// PinLen fixes the length of the string / byte-slice parameters (or fields, "param.Field") named here to a
+	// constant (length case of a contract); Tag is appended to every obligation name of the run.
+	PinLen map[string]uint64
+	Tag    string
 }
 
 // VerifyFunc symbolically executes fn from a fully symbolic entry state and collects obligations.
@@ -127,6 +140,9 @@ func (cx *Ctx) VerifyFunc(fn *ssa.Function, spec *FnSpec) (fx *FnExec) {
 	}()
 	st := &State{Heap: map[*Object]Value{}, Ghost: map[string]*Term{"alloc": BV64(0)}}
 	var args []Value
+	if spec != nil {
+		fx.PinLen, fx.Tag = spec.PinLen, spec.Tag
+	}
 	if spec != nil && spec.Args != nil {
 		args = spec.Args(fx, st)
 	} else {
@@ -149,7 +165,7 @@ func (cx *Ctx) VerifyFunc(fn *ssa.Function, spec *FnSpec) (fx *FnExec) {
 		fx.OnJoin = spec.OnJoin
 	}
 	// vacuity guard: requires must be satisfiable
-	fx.Obls = append(fx.Obls, &Oblig{Name: FuncName(fn) + "#cover.requires", Kind: "cover", Fn: FuncName(fn), Assumes: append([]*Term(nil), st.PC...), Goal: True, Cover: true, Entry: ei})
+	fx.Obls = append(fx.Obls, &Oblig{Name: FuncName(fn) + "#cover.requires" + fx.tagSuffix(), Kind: "cover", Fn: FuncName(fn), Assumes: append([]*Term(nil), st.PC...), Goal: True, Cover: true, Entry: ei})
 	ri := 0
 	fx.execFunc(nil, fn, args, st, "", func(exit *State, ret Value) {
 		if spec != nil && spec.Post != nil {
